@@ -285,6 +285,7 @@ COMPONENTS = {
         'spec_files': ['BudgetImpl.tla', 'MC_BudgetImpl.tla', 'Budget.tla'],
         'mc': {'quick': [{'cfg': 'MC_BudgetImpl.cfg', 'module': 'MC_BudgetImpl'}], 'thorough': [{'cfg': 'MC_BudgetImpl.cfg', 'module': 'MC_BudgetImpl'}]},
         'trace_module': 'Budget', 'trace_cfg_tmpl': 'Trace_Budget.cfg.tmpl',
+        'apalache': {'module': 'apalache/BudgetInd.tla', 'cinit': 'ConstInit', 'init': 'Init', 'indinit': 'IndInit', 'inv': 'IndInv'},
         'harness': 'budget',
         'random': {'quick': [{'runs': 0}], 'thorough': [{'runs': 0}]},
         'corrupt': _budget_corrupt,
